@@ -15,6 +15,7 @@ from ..canon import outcome_of, canon, dump_model, diff_dumps, name_target
 from ..seams import (Stepper, Ambient, SimFS, install_fs, uninstall_fs)
 
 ID = 'C11'
+USES_CHILD = True
 BUDGET = {
     'quick': {'runs': 1500, 'wall': 400, 'chunk': 25, 'shrink': 250},
     'thorough': {'runs': 150000, 'wall': 2700, 'chunk': 100, 'shrink': 400},
@@ -68,6 +69,22 @@ def gen_case(seed, tier='quick'):
                        'docprops': rng.random() < 0.3,
                        'dimension': rng.random() < 0.3}
         books.append(wb)
+    if nwb > 1 and rng.random() < 0.5:
+        # a sibling of the first workbook: same names, same formula texts,
+        # the names bound to other cells and other constants
+        sib = copy.deepcopy(books[0])
+        stored = [(sh['name'], c) for sh in sib['sheets']
+                  for c, spec in sh['cells'].items() if spec['form'] == 'n']
+        for n, t in sib['names'].items():
+            if ':' not in t['ref'] and stored:
+                sname, coord = rng.choice(stored)
+                t['sheet'], t['ref'] = sname, coord
+        for sh in sib['sheets']:
+            for spec in sh['cells'].values():
+                if spec['form'] == 'n' and isinstance(spec['value'], int):
+                    spec['value'] += 500
+                    spec['text'] = str(spec['value'])
+        books[1] = sib
     ops = []
     nloads = rng.choice([1, 1, 2, 3, 4, 6])
     for _ in range(nloads):
@@ -78,6 +95,10 @@ def gen_case(seed, tier='quick'):
               'bufsize': rng.choice([16, 64, 512, 4096, 8192])}
         if not op['ignore'] and rng.random() < 0.5:
             op['explicit_ignore'] = True
+        if ops and rng.random() < (1.0 if tier == 'thorough' else 0.3):
+            # not the first load of this process: compare with a load of the
+            # same bytes in a process that has never loaded anything
+            op['pristine_check'] = True
         if faulty and rng.random() < 0.5:
             k = rng.choice(['eio', 'eio', 'short', 'interrupt'])
             if k == 'short':
@@ -416,6 +437,30 @@ def _run(case, fs):
                 break
         else:
             first_dump[key] = d
+        if op.get('pristine_check') and not fired:
+            import json as _json
+            from ..restorer import Child
+            from .c12 import evaluate_all
+            resp = Child.get().load_xlsx(path, fs.get(path), ignore,
+                                         seed=case['seed'])
+            bump('probe:compared_with_pristine_process_load')
+            mine = _json.loads(_json.dumps(
+                {'dump': d, 'values': evaluate_all(mc.model)}, default=str))
+            if not resp.get('ok'):
+                viol = {'tag': 'pristine-process-load-raised',
+                        'detail': {'op': seq, 'wb': b, 'response': resp}}
+                break
+            theirs = {'dump': resp['dump'], 'values': resp['values']}
+            for side in (mine, theirs):
+                # stored values: ours were taken after evaluation
+                for ent in side['dump'].get('cells', {}).values():
+                    if isinstance(ent, dict):
+                        ent.pop('v', None)
+            if mine != theirs:
+                viol = {'tag': 'load-depends-on-earlier-loads',
+                        'detail': {'op': seq, 'wb': b, 'ignore': ignore,
+                                   'diff': diff_dumps(theirs, mine)}}
+                break
         if ignore:
             bump('probe:load_with_ignored_sheets')
         if any(xlsx.needs_quotes(s['name']) for s in wb['sheets']):
